@@ -1,9 +1,309 @@
-"""Engine M job table (MIR -> SMT-LIB2).  Filled in by lib/mirsmt.py users."""
+"""Engine M job table: SMT queries over the MIR of loop-free functions.
+
+C11: PhaseAccumulator::set_phase (+ reset, inlined) for EVERY finite f32 phase.
+C20: TimePeriod::from / SustainLevel::from for all 2^32 bit patterns (second opinion).
+
+Every query is (1) generated from the MIR dumped from the staged copy of /repo's current
+tree, (2) decided by z3 and cvc5 (both must say unsat; disagreement or `(error` is
+inconclusive), (3) validated: the encoding is evaluated on concrete inputs (the repo's own
+test inputs plus edge cases) and compared with a native run of the real function, and
+(4) on `sat` the model's input is replayed natively before a violation is reported."""
+import os
+import re
+import struct
+import subprocess
+import time
+
+import mirsmt
+from mirsmt import F32, Unsupported
+
+BV32 = "(_ BitVec 32)"
+MASK24 = "#x00ffffff"
+
+VALIDATION_PHASES = [0.0, 0.1, 0.2, 0.3, 0.4, 0.5, 0.6, 0.7, 0.8, 0.9, -2.0, -0.25, 0.99999994, 2.0000305,
+                     1.0, 12345.678, 1.0e10, -7.75, 5.9604645e-08, 3.4028235e38]
+VALIDATION_CLAMP = [0.0, 0.001, 0.0005, 20.0, 25.0, -1.0, 0.5, 1.0, 1.5, float("inf"), float("-inf"), float("nan"), 1e-45]
 
 
 def jobs_for(prop, tier):
+    if prop == "C11":
+        return ["set_phase"]
+    if prop == "C20":
+        return ["clamps"]
     return []
+
+
+def _bits(f):
+    return struct.unpack("<I", struct.pack("<f", f))[0]
+
+
+def _fp(bits):
+    return "((_ to_fp 8 24) #x%08x)" % bits
+
+
+def _find(fns, suffix, contains=None):
+    c = [f for n, f in fns.items() if n.endswith(suffix) and (contains is None or contains in f.sig)]
+    if len(c) != 1:
+        raise Unsupported("expected exactly one MIR body for %s (%s), found %d" % (suffix, contains, len(c)))
+    return c[0]
+
+
+def _set_phase_term(fns, consts, p_term):
+    """acc', last', flag' after set_phase(p) on a counter with mask 2^24-1 (as new() sets it)."""
+    ex = mirsmt.Exec(fns, consts)
+    f = _find(fns, "::set_phase", "PhaseAccumulator")
+    st = mirsmt.State()
+    st.fields = {1: (BV32, MASK24), 2: (BV32, "acc0"), 3: (BV32, "last0"), 5: ("Bool", "flag0")}
+    st.locals = {"_2": (F32, p_term)}
+    out = ex.run(f, st)
+    return out.fields[2][1], out.fields[3][1], out.fields[5][1], sorted(ex.used)
+
+
+def _clamp_term(fns, consts, which, x_term):
+    ex = mirsmt.Exec(fns, consts)
+    f = [g for n, g in fns.items() if n.endswith("::from") and g.sig.rstrip(" {").endswith("-> %s" % which)]
+    if len(f) != 1:
+        raise Unsupported("expected one From<f32> for %s, found %d" % (which, len(f)))
+    st = mirsmt.State()
+    st.locals = {"_1": (F32, x_term)}
+    out = ex.run(f[0], st)
+    return out.locals["_0"][1], sorted(ex.used)
+
+
+HEADER = "(set-logic ALL)\n(set-option :produce-models true)\n"
+
+
+def _decide(name, label, about, decls, negated_goal, inputs, log_path, functions, timeout_s=300):
+    """Both solvers on one query. inputs: list of (smt_name, kind) to read back on sat."""
+    script = HEADER + decls + "(assert %s)\n(check-sat)\n" % negated_goal
+    if inputs:
+        script += "(get-value (%s))\n" % " ".join(n for n, _ in inputs)
+    res = {"name": name, "label": label, "about": about, "functions": functions, "solvers": {}, "solver_s": 0.0}
+    answers = []
+    model = ""
+    import concurrent.futures
+    with concurrent.futures.ThreadPoolExecutor(max_workers=2) as pool:
+        futs = {sv: pool.submit(mirsmt.solve, script, sv, timeout_s) for sv in ("z3", "cvc5")}
+        for sv, fut in futs.items():
+            ans, out, dt = fut.result()
+            res["solvers"][sv] = {"answer": ans, "seconds": round(dt, 2)}
+            res["solver_s"] += dt
+            answers.append(ans)
+            if ans == "sat" and not model:
+                model = out
+            with open(log_path, "a") as fh:
+                fh.write("[mir-smt] %s %s -> %s (%.1fs)\n" % (name, sv, ans, dt))
+    # decided when at least one solver proves unsat and none finds a model; a solver that times out
+    # is reported, not believed either way; sat vs unsat is a disagreement = inconclusive
+    if "sat" in answers and "unsat" in answers:
+        res["verdict"] = "inconclusive"
+        res["reason"] = "solvers disagree: %s" % answers
+    elif "sat" in answers:
+        res["verdict"] = "fail"
+        res["model"] = model
+    elif "unsat" in answers:
+        res["verdict"] = "pass"
+        if any(a != "unsat" for a in answers):
+            res["note"] = "decided by one solver; the other answered %s" % [a for a in answers if a != "unsat"]
+    else:
+        res["verdict"] = "inconclusive"
+        res["reason"] = "solver answers %s" % answers
+    res["script"] = script
+    return res
+
+
+def _model_bits(model, name):
+    m = re.search(r"\(%s\s+\(fp\s+#b([01])\s+(#b[01]{8}|#x[0-9a-fA-F]{2})\s+(#b[01]{23}|#x[0-9a-fA-F]+)\)" % re.escape(name), model)
+    if m:
+        e = m.group(2)
+        ev = int(e[2:], 2) if e.startswith("#b") else int(e[2:], 16)
+        f = m.group(3)
+        fv = int(f[2:], 2) if f.startswith("#b") else int(f[2:], 16)
+        return (int(m.group(1)) << 31) | (ev << 23) | (fv & 0x7fffff)
+    m = re.search(r"\(%s\s+\(_\s+([+-])(zero|oo)\s+8\s+24\)" % re.escape(name), model)
+    if m:
+        sign = 0x80000000 if m.group(1) == "-" else 0
+        return sign | (0x7f800000 if m.group(2) == "oo" else 0)
+    if re.search(r"\(%s\s+\(_\s+NaN" % re.escape(name), model):
+        return 0x7fc00000
+    m = re.search(r"\(%s\s+#x([0-9a-fA-F]{8})\)" % re.escape(name), model)
+    if m:
+        return int(m.group(1), 16)
+    return None
+
+
+def _native(stage, mod, rust_body, log_path, marker):
+    """Append a #[cfg(test)] module with one test to the staged src/<mod>.rs, run it natively
+    (plain cargo test on the default toolchain), return the lines it printed after `marker`."""
+    src = os.path.join(stage.dir, "src", mod + ".rs")
+    tag = "verif_native_%d" % int(time.time() * 1000)
+    with open(src, "a") as fh:
+        fh.write("\n#[cfg(test)]\nmod %s {\n    extern crate std;\n    use super::*;\n    #[test]\n    fn %s_t() {\n%s\n    }\n}\n" % (tag, tag, rust_body))
+    env = dict(os.environ)
+    env["CARGO_NET_OFFLINE"] = "true"
+    cmd = ["cargo", "test", "--offline", "--lib", "--target-dir", os.path.join(stage.dir, "target-native"),
+           "%s_t" % tag, "--", "--nocapture", "--test-threads=1"]
+    p = subprocess.run(cmd, cwd=stage.dir, env=env, capture_output=True, text=True, timeout=1200)
+    with open(log_path, "a") as fh:
+        fh.write("$ " + " ".join(cmd) + "\n" + p.stdout[-3000:] + p.stderr[-3000:] + "\n")
+    return [ln.split(marker, 1)[1].strip() for ln in (p.stdout + p.stderr).splitlines() if marker in ln], p.returncode
+
+
+def _eval(decls, term, sort="bv"):
+    """Evaluate a closed term with z3 (translator validation)."""
+    script = HEADER + decls + "(define-fun __v () %s %s)\n(check-sat)\n(get-value (__v))\n" % (
+        BV32 if sort == "bv" else F32, term)
+    ans, out, _ = mirsmt.solve(script, "z3", 120)
+    if ans != "sat":
+        return None
+    return _model_bits(out, "__v")
 
 
 def run(stage, jobs, log_path):
-    return []
+    results = []
+    try:
+        mir = mirsmt.dump_mir(stage.dir, log_path)
+        fns, consts = mirsmt.parse_mir(mir)
+    except Unsupported as e:
+        return [{"name": "mir-dump", "label": "mir/dump", "verdict": "inconclusive", "reason": str(e)}]
+    for job in jobs:
+        try:
+            if job == "set_phase":
+                results += _job_set_phase(stage, fns, consts, log_path)
+            elif job == "clamps":
+                results += _job_clamps(stage, fns, consts, log_path)
+        except Unsupported as e:
+            results.append({"name": "mir-" + job, "label": "mir/" + job, "verdict": "inconclusive",
+                            "reason": "MIR construct outside the translator's subset: %s" % e})
+    return results
+
+
+def _job_set_phase(stage, fns, consts, log_path):
+    out = []
+    decls = "(declare-const p %s)\n(declare-const acc0 %s)\n(declare-const last0 %s)\n(declare-const flag0 Bool)\n" % (F32, BV32, BV32)
+    acc, last, flag, used = _set_phase_term(fns, consts, "p")
+    finite = "(not (or (fp.isNaN p) (fp.isInfinite p)))"
+    # --- translator validation against the real function --------------------------------
+    body = "        for b in [%s] { let p = f32::from_bits(b); let mut pa = PhaseAccumulator::<24, 10>::new(1000.0); pa.tick(); pa.set_phase(p); std::println!(\"MIRVAL {} {} {} {}\", b, pa.accumulator, pa.last_accumulator, pa.rolled_over); }" % ", ".join("%du32" % _bits(v) for v in VALIDATION_PHASES)
+    lines, rc = _native(stage, "phase_accumulator", body, log_path, "MIRVAL")
+    nat = {}
+    for ln in lines:
+        a = ln.split()
+        nat[int(a[0])] = int(a[1])
+    validated = 0
+    mismatch = []
+    for v in VALIDATION_PHASES:
+        b = _bits(v)
+        acc_c, _, _, _ = _set_phase_term(fns, consts, _fp(b))
+        got = _eval("(declare-const acc0 %s)\n(declare-const last0 %s)\n(declare-const flag0 Bool)\n" % (BV32, BV32), acc_c)
+        if b in nat and got == nat[b]:
+            validated += 1
+        else:
+            mismatch.append((v, got, nat.get(b)))
+    if mismatch or validated == 0:
+        return [{"name": "mir-set_phase-validation", "label": "C11/set_phase/encoding-validated-against-native", "verdict": "inconclusive",
+                 "reason": "MIR->SMT encoding disagrees with the native function on %s" % mismatch[:3]}]
+
+    def q(name, label, about, goal, extra_decls=""):
+        r = _decide(name, label, about, decls + extra_decls, "(and %s (not %s))" % (finite, goal), [("p", "f32")], log_path, used, timeout_s=240)
+        r["native_validations"] = validated
+        if r["verdict"] == "fail":
+            _confirm_set_phase(stage, r, log_path)
+        return r
+
+    f64 = "(_ FloatingPoint 11 53)"
+    out.append(q("mir_set_phase_in_range", "C11/set_phase/phase-stays-below-one-cycle",
+                 "every finite f32 p: set_phase(p) leaves the counter < 2^24 (mask as set by new()), last = 0, no pending rollover flag",
+                 "(and (bvult %s #x01000000) (= %s #x00000000) (not %s))" % (acc, last, flag)))
+    # p >= 0: |acc' - frac(p)*2^24| <= 4 counter steps (2^-22 cycle), computed exactly in f64
+    frac = "(fp.sub RNE p (fp.roundToIntegral RTZ p))"
+    e = "(fp.sub RNE ((_ to_fp_unsigned 11 53) RNE %s) (fp.mul RNE ((_ to_fp 11 53) RNE %s) ((_ to_fp 11 53) RNE 16777216.0)))" % (acc, frac)
+    out.append(q("mir_set_phase_fraction", "C11/set_phase/p>=0-is-fractional-part-within-2^-22-cycle",
+                 "every finite f32 p >= 0: |counter - (p - trunc(p)) * 2^24| <= 4, evaluated exactly in binary64",
+                 "(=> (fp.geq p (_ +zero 8 24)) (and (fp.leq %s ((_ to_fp 11 53) RNE 4.0)) (fp.geq %s ((_ to_fp 11 53) RNE (- 4.0)))))" % (e, e)))
+    # negative p: the code multiplies by -1 and then runs the same block as for p >= 0.
+    # (a) p * -1 is exactly -p (bit for bit) for every f32;  (b) with q := p * -1 the counter of
+    # set_phase(p) is the counter of set_phase(q) -- the two terms are then syntactically equal.
+    out.append(q("mir_set_phase_negate_exact", "C11/set_phase/p*-1-is-exactly-minus-p",
+                 "every finite f32 p: the f32 product p * -1.0 equals -p bit for bit",
+                 "(= (fp.mul RNE p %s) (fp.neg p))" % mirsmt.f32_const("-1")))
+    acc_q, _, _, _ = _set_phase_term(fns, consts, "(fp.mul RNE p %s)" % mirsmt.f32_const("-1"))
+    out.append(q("mir_set_phase_negative", "C11/set_phase/negative-p-equals-its-mirror",
+                 "every finite f32 p < 0: set_phase(p) and set_phase(-p) give the same counter, so a negative p yields a phase in [0,1) that (with the p >= 0 clause) is the fractional part of |p| within 2^-22 cycle, i.e. depends only on p modulo 1",
+                 "(=> (fp.lt p (_ +zero 8 24)) (= %s %s))" % (acc, acc_q)))
+    return out
+
+
+def _confirm_set_phase(stage, r, log_path):
+    b = _model_bits(r.get("model", ""), "p")
+    if b is None:
+        r["confirmed"] = False
+        return
+    body = ("        let p = f32::from_bits(%du32); let mut a = PhaseAccumulator::<24, 10>::new(1000.0); a.set_phase(p);\n"
+            "        let mut m = PhaseAccumulator::<24, 10>::new(1000.0); m.set_phase(-p);\n"
+            "        let ap = if p < 0.0 { -p } else { p }; let fr = ap - (ap as f64).trunc() as f32;\n"
+            "        let mut c = PhaseAccumulator::<24, 10>::new(1000.0); c.set_phase(fr);\n"
+            "        let e = a.accumulator as f64 - (fr as f64) * 16777216.0;\n"
+            "        let ok = a.accumulator < (1 << 24) && (p >= 0.0 || a.accumulator == m.accumulator) && a.accumulator == c.accumulator && (p < 0.0 || (e <= 4.0 && e >= -4.0));\n"
+            "        std::println!(\"MIRCEX {} {} {}\", ok, p, a.accumulator);") % b
+    lines, _ = _native(stage, "phase_accumulator", body, log_path, "MIRCEX")
+    r["confirmed"] = bool(lines) and lines[0].startswith("false")
+    r["counterexample"] = {"p_bits": b, "native": lines[:1]}
+    if r["confirmed"]:
+        path = os.path.join(os.path.dirname(os.path.dirname(os.path.abspath(__file__))), "replays", "C11")
+        os.makedirs(path, exist_ok=True)
+        r["file"] = os.path.join(path, r["name"] + ".txt")
+        with open(r["file"], "w") as fh:
+            fh.write("set_phase(f32::from_bits(%d)) violates %s\nnative: %s\n" % (b, r["label"], lines[:1]))
+
+
+def _job_clamps(stage, fns, consts, log_path):
+    out = []
+    decls = "(declare-const x %s)\n" % F32
+    for which, lo, hi, mod_label in (("TimePeriod", 0.001, 20.0, "time"), ("SustainLevel", 0.0, 1.0, "sustain")):
+        y, used = _clamp_term(fns, consts, which, "x")
+        flo, fhi = _fp(_bits(lo)), _fp(_bits(hi))
+        # validation
+        body = "        for b in [%s] { let v: f32 = %s::from(f32::from_bits(b)).into(); std::println!(\"MIRVAL {} {}\", b, v.to_bits()); }" % (
+            ", ".join("%du32" % _bits(v) for v in VALIDATION_CLAMP), which)
+        lines, _ = _native(stage, "adsr", body, log_path, "MIRVAL")
+        nat = {int(l.split()[0]): int(l.split()[1]) for l in lines}
+        validated = 0
+        bad = []
+        for v in VALIDATION_CLAMP:
+            b = _bits(v)
+            yc, _ = _clamp_term(fns, consts, which, _fp(b))
+            got = _eval("", yc, "fp")
+            if b in nat and got is not None and (got == nat[b] or (got & 0x7fffffff == 0 and nat[b] & 0x7fffffff == 0)):
+                validated += 1
+            else:
+                bad.append((v, got, nat.get(b)))
+        if bad or not validated:
+            out.append({"name": "mir-clamp-validation-" + mod_label, "label": "C20/%s/encoding-validated" % mod_label,
+                        "verdict": "inconclusive", "reason": "encoding disagrees with native on %s" % bad[:3]})
+            continue
+        goal = ("(and (fp.geq {y} {lo}) (fp.leq {y} {hi}) "
+                "(=> (and (fp.geq x {lo}) (fp.leq x {hi})) (fp.eq {y} x)) "
+                "(=> (fp.lt x {lo}) (fp.eq {y} {lo})) (=> (fp.gt x {hi}) (fp.eq {y} {hi})) "
+                "(=> (fp.isNaN x) (or (fp.eq {y} {lo}) (fp.eq {y} {hi}))))").format(y=y, lo=flo, hi=fhi)
+        r = _decide("mir_clamp_" + mod_label, "C20/%s/clamp-all-bit-patterns(MIR->SMT)" % mod_label,
+                    "all 2^32 f32 bit patterns through the MIR of <%s as From<f32>>::from: in [%g,%g], identity inside, nearer bound outside, a bound for NaN" % (which, lo, hi),
+                    decls, "(not %s)" % goal, [("x", "f32")], log_path, used)
+        r["native_validations"] = validated
+        if r["verdict"] == "fail":
+            b = _model_bits(r.get("model", ""), "x")
+            if b is not None:
+                body = ("        let x = f32::from_bits(%du32); let y: f32 = %s::from(x).into();\n"
+                        "        let ok = y >= %r && y <= %r && (!(x >= %r && x <= %r) || y == x) && (!(x < %r) || y == %r) && (!(x > %r) || y == %r);\n"
+                        "        std::println!(\"MIRCEX {} {} {}\", ok, x, y);") % (b, which, lo, hi, lo, hi, lo, lo, hi, hi)
+                body = body.replace("0.001", "0.001_f32").replace("20.0", "20.0_f32").replace(" 0.0", " 0.0_f32").replace(" 1.0", " 1.0_f32")
+                lines, _ = _native(stage, "adsr", body, log_path, "MIRCEX")
+                r["confirmed"] = bool(lines) and lines[0].startswith("false")
+                if r["confirmed"]:
+                    path = os.path.join(os.path.dirname(os.path.dirname(os.path.abspath(__file__))), "replays", "C20")
+                    os.makedirs(path, exist_ok=True)
+                    r["file"] = os.path.join(path, r["name"] + ".txt")
+                    with open(r["file"], "w") as fh:
+                        fh.write("%s::from(f32::from_bits(%d)) violates %s\nnative: %s\n" % (which, b, r["label"], lines[:1]))
+        out.append(r)
+    return out
